@@ -2,7 +2,7 @@
   FcProofs.Lemmas.Effects — every array an operation of the current code writes is one it allocated itself.
 -/
 import FcModel.Spec.C19
-namespace Fc
+namespace Fc.C19
 
 theorem mem_range'_ge {s n i : Nat} (h : i ∈ List.range' s n) : s ≤ i := by
   rw [List.mem_range'_1] at h
@@ -241,4 +241,4 @@ theorem stepEffect_spec (w : World) (s : EStep) :
     · left; rw [ha.2.1] at h; exact h
     · right; exact hw i h
 
-end Fc
+end Fc.C19
